@@ -188,6 +188,13 @@ func (s *Subscription) Ref(rid string) *Subscription {
 // when loading the resource, resourceSub will be nil, and err will be the error.
 func (s *Subscription) Loaded(resourceSub *rescache.ResourceSubscription, err error) {
 	if !s.c.Enqueue(func() {
+		// Ignore repeated calls for a subscription that is already loaded.
+		// It may happen when a query and its normalized query are requested
+		// at the same time.
+		if s.state > stateLoading {
+			return
+		}
+
 		if err != nil {
 			s.err = err
 			s.doneLoading()
